@@ -183,7 +183,7 @@ def _enumerate(world, K, thorough):
             for ch, tag in _kids(world, slots, allow_fail=(K != 'Skip')):
                 yield Config(K, [ch[s] for s in slots], {}, ch, label=f'{K}:n={n},{tag}')
     elif K == 'Seq':
-        maxn = 3
+        maxn = 4 if thorough else 3
         for n in range(0, maxn + 1):
             slots = [f'c{i}' for i in range(n)]
             name_opts = list(itertools.product([None, 'nm'], repeat=n))
